@@ -232,12 +232,31 @@ def run(ctx, model=None):
             if ctx.time_left() < 0:
                 return
     ctx.extra["exhaustive_small"] = f"all arrow x loose layouts for shapes {shapes}"
-    big = [(3, 3), (5, 1), (1, 5), (4, 2), (6, 6)] if ctx.quick() else \
+    rerun_same_directory(ctx, rng)
+    big = [(3, 3), (5, 1), (1, 5), (4, 2), (6, 6), (10, 9)] if ctx.quick() else \
         [(3, 3), (5, 1), (1, 5), (4, 2), (6, 6), (10, 5), (5, 10), (40, 10), (10, 40), (30, 1), (1, 30)]
     for (L, W) in big:
         for rep in range(3 if ctx.quick() else 10):
             mv, rw, ls = boards.random_board(rng, L, W, fd=rep % 2 == 1, max_reward=6)
             check_board(ctx, mv, rw, ls, rng.choice(PGRID), rng.choice(PGRID), rng.choice(PGRID), model)
+
+
+def rerun_same_directory(ctx, rng):
+    """main() run twice in one directory with probabilities that round to the same file name: the file
+    must hold the games of the SECOND run"""
+    for k in range(2 if ctx.quick() else 10):
+        s, w, l = rng.randrange(50), rng.randint(1, 3), rng.randint(1, 3)
+        a1 = [f"--seed={s}", f"--width={w}", f"--length={l}", "--prob_robot_break=0.1", "--prob_light_break=0.1", "--prob_tile_break=0.1"]
+        a2 = [f"--seed={s}", f"--width={w}", f"--length={l}", "--prob_robot_break=0.104", "--prob_light_break=0.096", "--prob_tile_break=0.1049"]
+        r1 = boards.run_generator(a1)
+        fresh = boards.run_generator(a2)
+        again = boards.run_generator(a2, pre_files=r1["files"])
+        inp = {"first_run": a1, "second_run": a2}
+        ctx.case(inp, True)
+        if list(r1["files"]) != list(fresh["files"]):
+            continue                           # names differ: nothing to overwrite
+        if again["outcome"] != "ok" or again["files"] != fresh["files"]:
+            ctx.violation("second-run-rewrites-the-file", inp, {"outcome": again["outcome"], "same_as_first_run": again["files"] == r1["files"]})
 
 
 def replay(ctx, viol):
